@@ -28,11 +28,20 @@ BADU = ("BADU", "<m", None)
 
 ALPHABET18 = [A, B, EQ, ONE, QS, LP, RP, LB, RB, COMMA, SEMI, UNITS,
               GROUP, OBJECT, END_GROUP, END_OBJECT, END, COMMENT]
+BEGIN_GROUP = ("BEGIN", "BEGIN_GROUP", "G")      # not a keyword of the ISIS grammar: a plain name there
 ALPHABET20 = ALPHABET18 + [BADQ, BADU]
+ALPHABET21 = ALPHABET20 + [BEGIN_GROUP]
+
+
+def for_dialect(seq, dialect):
+    """the abstract token list as the dialect's grammar reads it"""
+    if dialect != "ISIS":
+        return seq
+    return [("NAME", t[1], None) if t[1] in ("BEGIN_GROUP", "BEGIN_OBJECT") else t for t in seq]
 # a core for longer sequences: one name, the structural tokens, one block kind
 ALPHABET11 = [A, EQ, ONE, LP, RP, COMMA, SEMI, UNITS, GROUP, END_GROUP, END, BADU]
 
-MODE = {"PVL": "pvl", "ODL": "odl", "PDS3": "odl", "ISIS": "pvl", "OMNI": "pvl"}
+MODE = {"PVL": "pvl", "ODL": "odl", "PDS3": "odl", "ISIS": "pvl", "OMNI": "pvl", "ISISx": "pvl"}
 
 
 def render(seq, sep=" "):
